@@ -23,7 +23,9 @@ HOSTILE = ['', '.', '..', '...', '/', 'a/', '/a', 'a//b', '../x', '..\\x',
            'C' * 300, 'é/..', '%2e%2e', '&AC4ALg-', '&AC8-', 'a\\..\\b',
            '../.bob', '.../...', '../bob/.Box', 'Box', 'Box/Sub', 'Box/..',
            '../bob/new', '/etc', '/dev/shm', '....', '. ', ' ..', '../',
-           '..//bob']
+           '..//bob', 'INBOX/', 'INBOX//', 'INBOX/.', 'inbox/', 'Inbox',
+           'INBOX', 'INBOX/INBOX', '/INBOX', 'INBOX\\', 'Box/', 'Box//',
+           'Box/Sub/', 'bob/', '../bob/', 'INBOX/Box', 'INBOX/ ', 'INBOX /']
 PLAIN = ['Box', 'Box/Sub', 'Work', 'a', 'a/b']
 
 
@@ -34,7 +36,7 @@ def pick_name(rng: random.Random) -> str:
     if r < 0.85:
         return rng.choice(PLAIN)
     parts = [rng.choice(['..', '.', 'a', 'bob', '', 'cur', 'x y', '...',
-                         '.bob', 'alice'])
+                         '.bob', 'alice', 'INBOX', 'Box'])
              for _ in range(rng.randint(1, 4))]
     return '/'.join(parts)
 
@@ -260,7 +262,7 @@ class C08(Profile):
             'commands per case, every command that takes a mailbox, '
             'reference or pattern (CREATE, DELETE, RENAME both positions, '
             'SELECT, EXAMINE, STATUS, SUBSCRIBE, UNSUBSCRIBE, LIST, LSUB, '
-            'APPEND, COPY, MOVE) with names from 57 hostile shapes (empty, '
+            'APPEND, COPY, MOVE) with names from 75 hostile shapes (empty, '
             '., .., leading/trailing/doubled delimiters, ../bob, path '
             'separators, NUL, 300 bytes, non-ASCII, modified-UTF-7 spellings '
             'of "..", names of maildir control files) or random '
